@@ -357,8 +357,97 @@ fn gen_czcycle(p: &mut Prng, id: String) -> FwCase {
     FwCase { id, kind: "czcycle".into(), machines, fp: 0.0, fb: 0.0, t0: 0, calls, rng_seed: p.next(), extreme: 0, ni: None, prefix: vec![] }
 }
 
+/// C01/C13: the rand_distr samplers inside the framework. One machine whose action timeout,
+/// block duration, limit or counter value comes from a heavy sampler (BTPE binomial, PTRS
+/// poisson, gamma/beta rejection loops, geometric, pareto, weibull), driven by a scripted
+/// prefix of extreme words (all-ones / all-zero in both orders) after the transition draw.
+/// Case 0 of every seed is the minimal F12 history: Binomial(1000, 0.5), words [0, MAX, 0].
+fn gen_extsample(p: &mut Prng, id: String, first: bool) -> FwCase {
+    use enum_map::enum_map;
+    use maybenot::action::Action;
+    use maybenot::counter::{Counter, Operation};
+    use maybenot::dist::{Dist, DistType};
+    use maybenot::event::Event;
+    use maybenot::state::{State, Trans};
+    let fams: Vec<DistType> = vec![
+        DistType::Binomial { trials: 1000, probability: 0.5 },
+        DistType::Binomial { trials: 1_000_000_000, probability: 0.6666666666666666 },
+        DistType::Binomial { trials: 20, probability: 0.5 },
+        DistType::Binomial { trials: 1_000_000_000, probability: 1e-9 },
+        DistType::Poisson { lambda: 1000.0 },
+        DistType::Poisson { lambda: 5.0 },
+        DistType::Poisson { lambda: 1e42 },
+        DistType::Geometric { probability: 1e-9 },
+        DistType::Geometric { probability: 0.5 },
+        DistType::Gamma { scale: 1.0, shape: 0.5 },
+        DistType::Gamma { scale: 1e300, shape: 2.0 },
+        DistType::Beta { alpha: 0.5, beta: 0.5 },
+        DistType::Beta { alpha: 2.0, beta: 3.0 },
+        DistType::Pareto { scale: 1.0, shape: 1e-3 },
+        DistType::Weibull { scale: 1.0, shape: 1e-3 },
+        DistType::Normal { mean: 0.0, stdev: 1e300 },
+        DistType::LogNormal { mu: 700.0, sigma: 10.0 },
+        DistType::SkewNormal { location: 0.0, scale: 1.0, shape: 1e300 },
+    ];
+    let dt = if first { fams[0] } else { *p.pick(&fams) };
+    let d = Dist { dist: dt, start: 0.0, max: if first || p.chance(1, 2) { 0.0 } else { 1000.0 } };
+    let k = |v: f64| Dist { dist: DistType::Uniform { low: v, high: v }, start: 0.0, max: 0.0 };
+    let mut t = enum_map! { _ => vec![] };
+    t[Event::NormalSent] = vec![Trans(0, 1.0)];
+    t[Event::NormalRecv] = vec![Trans(1, 1.0)];
+    let mut s0 = State::new(t);
+    let site = if first { 0 } else { p.below(5) };
+    s0.action = Some(match site {
+        0 => Action::SendPadding { bypass: false, replace: false, timeout: d, limit: None },
+        1 => Action::BlockOutgoing { bypass: false, replace: false, timeout: k(0.0), duration: d, limit: None },
+        2 => Action::UpdateTimer { replace: true, duration: d, limit: None },
+        3 => Action::SendPadding { bypass: false, replace: false, timeout: k(1.0), limit: Some(d) },
+        _ => Action::SendPadding { bypass: false, replace: false, timeout: k(1.0), limit: None },
+    });
+    if site == 4 {
+        s0.counter = (Some(Counter::new_dist(Operation::Increment, d)), None);
+    }
+    let mut t1 = enum_map! { _ => vec![] };
+    t1[Event::NormalSent] = vec![Trans(0, 1.0)];
+    let s1 = State::new(t1);
+    let machines = vec![Machine::new(1_000_000, 0.0, 0, 0.0, vec![s0, s1]).expect("extsample machine")];
+    // words: one per transition draw, then the sampler's draws
+    let pat: Vec<u64> = if first {
+        vec![u64::MAX, 0]
+    } else {
+        let n = p.range(1, 8) as usize;
+        match p.below(6) {
+            0 => (0..n).map(|i| if i % 2 == 0 { u64::MAX } else { 0 }).collect(),
+            1 => (0..n).map(|i| if i % 2 == 0 { 0 } else { u64::MAX }).collect(),
+            2 => vec![u64::MAX; n],
+            3 => vec![0; n],
+            4 => (0..n).map(|_| *p.pick(&[0u64, u64::MAX, 0xfff, 0xffff_ffff_ffff_f000, 1 << 63, (1 << 63) - 1])).collect(),
+            _ => (0..n).map(|_| if p.chance(1, 2) { p.next() } else { *p.pick(&[0u64, u64::MAX]) }).collect(),
+        }
+    };
+    // Framework::new samples the limit of state 0 first when the dist sits in the limit
+    let mut prefix: Vec<u64> = Vec::new();
+    if site != 3 {
+        prefix.push(0);
+    }
+    prefix.extend(pat);
+    let ncalls = if first { 1 } else { p.range(1, 4) };
+    let mut calls = Vec::new();
+    let mut tm: i128 = 0;
+    for _ in 0..ncalls {
+        tm += 1000;
+        let evs = if first || p.chance(2, 3) { vec![TriggerEvent::NormalSent] } else { vec![TriggerEvent::NormalRecv, TriggerEvent::NormalSent] };
+        calls.push((tm, evs));
+    }
+    FwCase { id, kind: "extsample".into(), machines, fp: 0.0, fb: 0.0, t0: 0, calls, rng_seed: p.next(), extreme: 0, ni: None, prefix }
+}
+
 pub fn gen_kind(kind: &str, p: &mut Prng, id: String) -> Option<FwCase> {
     match kind {
+        "extsample" => {
+            let first = id.ends_with("-0");
+            Some(gen_extsample(p, id, first))
+        }
         "c07" => Some(gen_c07(p, id)),
         "c08" => Some(gen_c08(p, id)),
         "c09" => Some(gen_c09(p, id)),
